@@ -27,8 +27,9 @@ SHARED = {
 class Builder:
     """One Builder per tree: caches shared structures and distinct-object leaves."""
 
-    def __init__(self, mod):
+    def __init__(self, mod, reverse_dicts=False):
         self.mod = mod
+        self.reverse_dicts = reverse_dicts     # equal dicts, other insertion order
         self.ident = {}        # id(object) -> identity (path) of compound nodes
         self.leafobj = {}      # (kind, n) -> object
         self.shared = {}
@@ -72,8 +73,9 @@ class Builder:
                 o = tuple([])
         elif k == 'dict':
             o = {}
-            for i, (key, c) in enumerate(t[1]):
-                o[key] = self.build(c, path + [i + 1])
+            items = [(key, self.build(c, path + [i + 1])) for i, (key, c) in enumerate(t[1])]
+            for key, v in (reversed(items) if self.reverse_dicts else items):
+                o[key] = v
         else:
             raise ValueError(t)
         self.ident[id(o)] = path
